@@ -168,7 +168,7 @@ def _wave_eval(op, cbuf, c_locs, c_caps, sim, delays, simctl_int, seed=0):
         elif simctl_int[1] == 1:
             delays = delays[simctl_int[0]]
         else:
-            _rnd = (seed << 4) + (z_idx << 20) + simctl_int[0]
+            _rnd = (int(seed) << 4) + (int(z_idx) << 20) + int(simctl_int[0])
             for _ in range(4):
                 _rnd = int(0xDEECE66D) * _rnd + 0xB
             delays = delays[_rnd % len(delays)]
